@@ -87,3 +87,10 @@ REGISTRY.update({
                "For table sizes 2,3,10 (thorough also 25,60) and raw write granularities whole/64/16 bytes every process-crash state of a single writer is materialised and two successive real callers must return the exact table; 2 callers (all interleavings within preemption bound 3 / 6) and 3 callers (bound 1 / 2) from the empty cache, and 2 callers from a spread of crash states, must all hold the exact table and leave a cache that a later run reads back exactly.",
                "process-crash semantics (completed syscalls durable; no power-loss reordering); threads stand in for processes; np.savetxt/np.genfromtxt/tempfile/os are exercised for real"),
 })
+
+REGISTRY.update({
+    "C20": _mc("explicit enumeration of every star-like input on n<=4 samples / L<=3 loci (all block partitions per locus x three parent-sharing modes) x mutation menu x rate x iterations x max_shape; closed-form conjugate oracle",
+               "All star-like tree sequences below the bound x 5 mutation patterns x mu {0.5,1e-8,1e3} x max_iterations {1,2,5,25} x max_shape {2,10,1000}: each parent's posterior must be Gamma(1+sum y, mu*sum span), scaled by one factor when the cap binds (1e-9)."),
+    "C26": _mc("exhaustive enumeration of all count vectors in {0,1,2,5}^m (m<=5 quick, 7 thorough) x option product; definition oracle (fixed) and brute force over all 2^(m-1) segmentations (Poisson)",
+               "Every count vector below the bound x offsets x epochs / penalties x min_counts x min_offset: the fixed helper equals its definition (boundary ties within 4 ulp accept either index); the Poisson helper must return a feasible segmentation within 1e-9 of the brute-force optimum."),
+})
